@@ -11,6 +11,8 @@ ALL = [f'C{i:02d}' for i in range(1, 21)]
 
 SETUP = ("/venv/bin/python -c 'import hypothesis, yaml' 2>/dev/null || "
          "/venv/bin/pip install --no-index --find-links /opt/veriftools/wheels hypothesis pyyaml; "
+         "(test -d .deps/atheris || /venv/bin/pip install -q --no-index --find-links /opt/veriftools/wheels --target .deps atheris "
+         "|| echo 'atheris not installed: the coverage-guided campaign of C07 will be skipped'); "
          "/venv/bin/python -c 'import hypothesis, yaml, bespokeasm; print(\"setup ok\", hypothesis.__version__)'")
 
 checks = []
